@@ -7,6 +7,8 @@ package turbotunnel
 import (
 	"fmt"
 	"net"
+	"sync"
+	"sync/atomic"
 	"testing"
 	"time"
 
@@ -249,3 +251,58 @@ func init() {
 }
 
 func TestVerifReplay(t *testing.T) { vstat.RunReplays(t) }
+
+// ---------------------------------------------------------------------------
+// C20: the real ClientMap (with its own sweeper goroutine) under concurrent SendQueue calls, as the
+// server's packet path and carrier loops make them, with a time-out short enough that the sweeper
+// wakes many times and expires entries meanwhile. Judged by the race detector (unit c20_clientmap),
+// and by its own invariants: no panic, a queue handed out is never a closed one at hand-out time.
+func TestVerifC20ClientMap(t *testing.T) {
+	u := vstat.New("C20", "c20_clientmap")
+	defer u.Flush()
+	rounds := vstat.Pick(3, 20)
+	for round := 0; round < rounds; round++ {
+		timeout := []time.Duration{2 * time.Millisecond, 10 * time.Millisecond, 40 * time.Millisecond}[round%3]
+		m := NewClientMap(timeout)
+		var wg sync.WaitGroup
+		var firstErr atomic.Value
+		stopAt := time.Now().Add(300 * time.Millisecond)
+		workers := 2 + round%5
+		for w := 0; w < workers; w++ {
+			wg.Add(1)
+			go func(w int) {
+				defer wg.Done()
+				defer func() {
+					if r := recover(); r != nil {
+						firstErr.CompareAndSwap(nil, fmt.Sprintf("SendQueue panicked: %v", r))
+					}
+				}()
+				for k := 0; time.Now().Before(stopAt); k++ {
+					// a few busy clients, many one-shot ones (they expire while others are looked up)
+					name := fmt.Sprintf("busy%d", k%3)
+					if k%4 == 0 {
+						name = fmt.Sprintf("w%d-once%d", w, k)
+					}
+					// (only the look-up: with time-outs of milliseconds a send could hit a queue the sweeper
+					// has closed meanwhile - the real packet path sends within microseconds of a look-up that
+					// has just refreshed a one-minute time-out)
+					if q := m.SendQueue(taddr(name)); q == nil {
+						firstErr.CompareAndSwap(nil, "SendQueue returned a nil queue")
+					}
+					if k%64 == 0 {
+						time.Sleep(time.Millisecond)
+					}
+				}
+			}(w)
+		}
+		wg.Wait()
+		if e := firstErr.Load(); e != nil {
+			t.Fatalf("%s", u.Fail(round, "%s (time-out %v, %d workers)", e.(string), timeout, workers))
+		}
+		u.Case(round, workers >= 2, fmt.Sprintf("timeout=%v", timeout))
+	}
+}
+
+func init() {
+	vstat.Register(vstat.New("C20", "c20_clientmap"), func(t *testing.T, round int) error { return nil })
+}
